@@ -337,6 +337,14 @@ impl Shadow {
             let allowance = if forward_like { self.pacing.map(|p| p.mark.to_f64()).unwrap_or(0.125) } else { 0.0 };
             if obs.debt_before - obs.debt_after > allowance + 1e-9 {
                 v("C10", format!("allocation_debt decreased {} -> {} by mutator op `{op}`", obs.debt_before, obs.debt_after));
+            } else if forward_like && obs.debt_before - obs.debt_after > 1e-12 {
+                // read literally, "never decreased by ... write barriers" fails here: the barrier marks
+                // its child with the collector's own routine and is credited mark_factor for it
+                keyed.push(Violation {
+                    property: "C10",
+                    key: "forward-like-barrier-pays-mark-credit",
+                    what: format!("allocation_debt decreased {} -> {} by `{op}` (at most mark_factor per newly marked object)", obs.debt_before, obs.debt_after),
+                });
             }
         }
         if let Op::Adjust(x) = op {
